@@ -339,9 +339,9 @@ def cmd_check(argv):
         if ra is None:
             continue
         pair_checked += 1
-        if prop == "C15":
-            # C15 leaves node labels free ("up to a renaming of nodes"): results may legitimately depend on set order;
-            # the pair batch still checks that the SCHEDULE is independent of the hash seed
+        if prop in ("C15", "C17"):
+            # C17 and C15 speak about one process (and C15 leaves node labels free ("up to a renaming of nodes"): results may legitimately depend on set order;
+            # the pair batch still checks that the SCHEDULE is independent of the hash seed; O4 proper belongs to C20)
             if ra["sched"] != rb["sched"]:
                 harness.append(f"schedule digest of run {i} differs between hash seeds (harness nondeterminism)")
             continue
